@@ -454,6 +454,29 @@ def fam_nc(tier, seed):
             afs.append(uint_field("x", [(0, 7), (16, 23)], array=arr(2, 8)))                   # u16 native elements
         afs = [f for f in afs if _array_fits(f, base)]
         cases += emit("na%d" % base, base, afs)
+    # every order of four adjacent single bits, and of three single bits inside a window of five (lists whose first / last entries look like the ends of a plain range)
+    pf = [uint_field("x", [(b + 4, b + 4) for b in perm]) for perm in itertools.permutations(range(4))]
+    pf += [uint_field("x", [(b, b) for b in perm]) for perm in itertools.permutations((2, 4, 7))] + [uint_field("x", [(b, b) for b in perm]) for perm in itertools.permutations((9, 10, 11))]
+    pf += [uint_field("x", [(b + 20, b + 20) for b in (0, 2, 1, 3)], array=arr(2, 4)), uint_field("x", [(b + 40, b + 40) for b in (4, 1, 3, 2, 0)], array=arr(2, 8)), uint_field("x", [(3, 3), (1, 1), (2, 2), (0, 0)])]
+    cases += emit("np64", 64, pf, per=12)
+    # evenly spaced single bits (k >= 3, spacing 3..8) placed against the top of the storage, and long spaced lists
+    for base in (8, 16, 32, 64, 128, 24):
+        sf = []
+        for sp in (3, 4, 5, 8):
+            for k in (3, 4, 6):
+                if (k - 1) * sp + 1 > base or k > sp + 3:
+                    continue
+                top = base - 1
+                sf.append(uint_field("x", [(top - (k - 1 - j) * sp, top - (k - 1 - j) * sp) for j in range(k)]))
+                if top - (k - 1) * sp - 1 >= 0:
+                    sf.append(uint_field("x", [(top - 1 - (k - 1 - j) * sp, top - 1 - (k - 1 - j) * sp) for j in range(k)], access="r"))
+        if sf:
+            cases += emit("ns%d" % base, base, sf, per=12)
+    # whole-byte pieces on byte boundaries that make up u24 / u40 / u48 / u56 (arbitrary-int results from byte-granular lists)
+    for base in (64, 128, 100):
+        bf = [uint_field("x", [(0, 7), (16, 23), (32, 39)]), uint_field("x", [(40, 47), (8, 15), (24, 31)]), uint_field("x", [(0, 15), (32, 55)]), uint_field("x", [(8, 15), (0, 7), (56, 63), (24, 31), (40, 47), (16, 23)]),
+              uint_field("x", [(16, 39), (48, 63), (0, 15)]), uint_field("x", [(base - 8, base - 1), (0, 15)]) if base % 8 == 0 else uint_field("x", [(88, 95), (0, 15)])]
+        cases += emit("ny%d" % base, base, bf, per=8)
     # byte permutations: every order of the four bytes of a u32, and a few orders of the bytes of u64 / u128 (whole-base native fields from aligned byte ranges)
     perm_fields = [uint_field("x", [(8 * b, 8 * b + 7) for b in perm]) for perm in itertools.permutations(range(4))]
     cases += emit("nb32", 32, perm_fields, per=8)
@@ -610,6 +633,16 @@ def fam_enum(tier, seed):
                 continue
             seen_o.add(tuple(o))
             add(make_enum("E", bits, o, "true"), tags=["exhaustive", "structured-order"])
+    # one-hot discriminants with and without the zero variant
+    for bits in (4, 5, 8, 12, 16, 32, 40, 64):
+        hot = [1 << k for k in range(0, bits, max(1, bits // 6))][:7]
+        add(make_enum("E", bits, [0] + hot, "false", radix="hex"), tags=["nonexh", "one-hot"])
+        add(make_enum("E", bits, hot, None, radix="bin" if bits <= 16 else "hex"), tags=["nonexh", "one-hot"])
+        add(make_enum("E", bits, list(reversed(hot)) + [0], "false"), tags=["nonexh", "one-hot"])
+    # 64-bit storage, many variants, several at and above 2^63
+    add(make_enum("E", 64, [3 * k + 1 for k in range(12)] + [(1 << 63) + 5 * k for k in range(6)] + [(1 << 64) - 1, (1 << 63) - 1], "false", radix="hex"), tags=["nonexh", "many-variants", "above-2^63"])
+    add(make_enum("E", 64, [(1 << 64) - 1 - 7 * k for k in range(20)] + [0], None, radix="hex"), tags=["nonexh", "many-variants", "above-2^63"])
+    add(make_enum("E", 63, [(1 << 62) + k for k in range(17)] + [1], "false", radix="hex"), tags=["nonexh", "many-variants"])
     # the largest discriminant is 2^k - 1, 2^k or 2^k + 1 (bit-length shortcuts), alone and next to small ones
     for bits in (3, 5, 8, 9, 10, 12, 16, 17, 20, 24, 32, 33, 40, 48, 63, 64):
         for k in sorted({1, 3, bits // 2, bits - 1}):
@@ -706,6 +739,11 @@ def fam_enum(tier, seed):
         hi = 1 << (bits - 1)
         add(make_enum("E", bits, [hi | 1, hi | 3, 2, hi | 5, 0], "conditional", cfg=[None, None, True, None, False], radix="hex"), tags=["conditional", "shared-bit"])
         add(make_enum("E", bits, [1, 3, space - 2, 5, hi], "conditional", cfg=[None, None, True, None, True], radix="hex"), tags=["conditional", "shared-bit"])
+    # variants that share a *name* under mutually exclusive cfgs and differ in their discriminant (only one exists in any build)
+    for bits, live_first in ((2, True), (3, False), (12, True), (33, False)):
+        top = (1 << bits) - 1
+        e_ = make_enum("E", bits, [0, 1, top, 2], "conditional", cfg=[None, live_first, not live_first, None], names=["Z", "Mode", "Mode", "Last"])
+        add(e_, tags=["conditional", "same-name"])
     # conditional enums listing exactly 2^N variants of which one is compiled out
     for bits in (1, 2, 3):
         space = 1 << bits
@@ -1007,6 +1045,11 @@ def fam_mixed(tier, seed):
     return cases
 
 
+def re_sub_suffix(text):
+    import re
+    return re.sub(r"[ui](8|16|32|64|128)$", "", text).replace("_", "")
+
+
 def handwritten_mixed():
     """boundary shapes that must always be present"""
     out = []
@@ -1129,6 +1172,25 @@ def handwritten_mixed():
     # arbitrary-int bases with an array whose count x stride exceeds the storage integer although every element lies below bit N (size and alignment stay those of the storage integer)
     for k, (base, ew, stride) in enumerate(((20, 2, 17), (12, 1, 9), (40, 4, 35), (24, 4, 20), (65, 8, 57), (100, 16, 84), (9, 1, 8))):
         out.append(bitfield_case("mh_wide_stride%d" % k, "mixed", base, [uint_field("e", [(0, ew - 1)], array=arr(2, stride)), bool_field("mid", ew)], name="Reg", default=(default_spec(1 << (base - 1)) if k % 2 else None)))
+    # default literals with the storage type as suffix
+    for k, (base, text) in enumerate(((32, "0x12_3456u32"), (24, "0xAB_CDEFu32"), (8, "200u8"), (64, "1_000_000_007u64"), (128, "0xFFu128"), (9, "0b1_0000_0001u16"))):
+        val = int(re_sub_suffix(text), 0)
+        out.append(bitfield_case("mh_sufdef%d" % k, "mixed", base, [uint_field("a", [(0, 3)])], default=default_spec(val, text=text, syntax="=:"[k % 2]), name="Reg"))
+    # field-less bitfields written as unit structs
+    for k, base in enumerate((8, 24, 128)):
+        c = bitfield_case("mh_unit%d" % k, "mixed", base, [], name="Reg", default=(default_spec(1) if k else None), debug=(k == 1))
+        c["unit_struct"] = True
+        out.append(c)
+    # the user's own trait impls for the generated type (the macro must not emit impls that could collide with them)
+    for k, base in enumerate((32, 24, 8)):
+        c = bitfield_case("mh_uimpl%d" % k, "mixed", base, [uint_field("a", [(0, 3)]), bool_field("b", base - 1)], name="Reg", default=default_spec(3))
+        c["user_impls"] = True
+        out.append(c)
+    # one-piece lists as array elements: contiguous, so no stride is required
+    g1 = dict(uint_field("nib", [(4, 7)], array=arr(3, None, 4)), attr_text="#[bits([4..=7], rw)]")
+    g2 = dict(bool_field("fl", 0, array=arr(4, None, 1)), attr_text="#[bit([0], rw)]")
+    g3 = dict(uint_field("by", [(16, 23)], array=arr(2, 12)), attr_text="#[bits([16..=23], rw, stride = 12)]")
+    out.append(bitfield_case("mh_spell2", "mixed", 64, [g1, g2, g3], name="Reg"))
     # accepted spellings of a list: under `bit(`, single-entry lists
     f1 = dict(uint_field("scr", [(9, 9), (2, 2), (12, 12), (5, 5)]), attr_text="#[bit([9, 2, 12, 5], rw)]")
     f2 = dict(uint_field("one", [(3, 3)]), attr_text="#[bits([3], rw)]", form="list")
@@ -1239,6 +1301,15 @@ def fam_bld(tier, seed):
         if base >= 64:
             # byte arrays with strides 24 and 32 (byte-granular but not dense)
             cases.append(bitfield_case("bi_%04d" % n, "bld", base, [uint_field("b24", [(8, 15)], array=arr(2, 24)), uint_field("b32", [(0, 7)], array=arr(2, 32), access="w")], default=default_spec((1 << base) - 1), name="Reg"))
+            n += 1
+        # an accessor-less ("reserved") or read-only field laid over writable ones, under a default: build() returns what was written
+        if base >= 16:
+            ones = (1 << base) - 1
+            cases.append(bitfield_case("bv_%04d" % n, "bld", base, [uint_field("a", [(0, 7)]), uint_field("reserved", [(4, 11)], access=""), uint_field("b", [(8, 15)], access="w")], default=default_spec(ones), name="Reg"))
+            n += 1
+            cases.append(bitfield_case("bv_%04d" % n, "bld", base, [uint_field("reserved", [(0, base - 1)], access=""), uint_field("a", [(base - 8, base - 1)]), bool_field("f", 0)], default=default_spec(rng0.getrandbits(base) | 1), name="Reg"))
+            n += 1
+            cases.append(bitfield_case("bv_%04d" % n, "bld", base, [uint_field("a", [(2, 5)], array=arr(2, 6)), uint_field("view", [(0, 15)], access="r"), uint_field("rsv", [(3, 3), (9, 9)], access="")], default=default_spec(0xA5A5 & ones), name="Reg"))
             n += 1
         # write-only flags and a strobe next to a default (every writable field, whatever its kind, is a builder step)
         if base >= 8:
